@@ -347,9 +347,19 @@ pub fn generate(group: &str, r: &mut Rng, n: usize) -> Vec<Value> {
                 let v = vars.iter_mut().find(|v| v["id"] == vid).unwrap();
                 let big = r.chance(1, 4);
                 let (l2, w) = if big { (r.range(-(1 << 21), 1 << 21), r.range(0, 1 << 20)) } else { (r.range(-40, 40), r.range(0, 600)) };
-                // bounds in halves: lower = l2/2, upper = lower + w (+1/2 sometimes)
-                let lo = q(l2, 2);
-                let hi = q(l2 + 2 * w + r.range(0, 1), 2);
+                // fractional bounds: lower = l2/2 + a fraction, upper = lower + w + another fraction (the two fractional
+                // parts vary independently; denominators 2, 4, 8 and 10)
+                let den = if big { 2 } else { *r.pick(&[2i64, 4, 8, 10]) };
+                let fr = |r: &mut Rng, p: i64, d: i64| -> Value {
+                    fn g(a: i64, b: i64) -> i64 { if b == 0 { a.abs() } else { g(b, a % b) } }
+                    let k = g(p, d).max(1);
+                    let _ = r;
+                    json!([p / k, d / k])
+                };
+                let lo_p = l2 * (den / 2) + r.range(0, den - 1);
+                let hi_p = (l2 + 2 * w) * (den / 2) + r.range(0, den - 1);
+                let lo = fr(r, lo_p, den);
+                let hi = fr(r, hi_p.max(lo_p), den);
                 match r.below(12) {
                     0 => { v["kind"] = json!("continuous"); v["bound"] = json!([{"lo": lo, "hi": hi}]); }
                     1 => { v["kind"] = json!("integer"); v["bound"] = json!([]); }
